@@ -155,7 +155,7 @@ def header(case, res):
     return dict(cols=cols, rows=rows, r0=case["r0"], pw=pw, ph=ph, l=l, t=t, rw=rw, rh=rh,
                 fill_empty=fill_empty, nostack=nostack, mode="clean", outcome=res["outcome"], expect="ok", attrs_equal=res["attrs_equal"],
                 wrong_stream=bool(res.get("stale_out")),
-                fin=res["fin"], state_same=res["state_same"], **inner)
+                fin=res["fin"], fin_live=bool(res.get("fin_live", True)), state_same=res["state_same"], **inner)
 
 
 def strip_gfx(stream):
